@@ -162,6 +162,9 @@ pub enum TokFault {
     /// byte string for the same residue; RFC 8032 demands S < L). P-384 (v3): add the group order n to
     /// the half that still fits in 48 bytes afterwards, if any.
     SigAddOrder { k: u8 },
+    /// the big-endian integer `hex` added to the payload's last bytes (as many as `hex` has), when the
+    /// sum still fits: for RSA, another integer of the same residue class modulo the key's modulus
+    SigAddValue { hex: String },
     /// text-level: insert `chars` into the payload segment, `back` characters before its end
     TextInsertInPayload { back: usize, chars: String },
     /// text-level: the `nth` '-' or '_' of the text becomes its standard-alphabet counterpart '+' / '/'
@@ -189,6 +192,15 @@ pub enum TokFault {
 }
 
 /// What the fault application hands to the verifier.
+/// Characters an editor, a terminal, a file format or a copy-and-paste adds without showing them:
+/// byte order mark, zero-width space / joiner / non-joiner, word joiner, directional marks, soft
+/// hyphen, line and paragraph separators, next-line, no-break and ideographic spaces, and the ASCII
+/// controls. None of them is a base64url symbol, a dot or part of any header.
+pub const INVISIBLES: [char; 22] = [
+    '\u{feff}', '\u{200b}', '\u{200c}', '\u{200d}', '\u{2060}', '\u{200e}', '\u{200f}', '\u{ad}', '\u{2028}', '\u{2029}', '\u{85}', '\u{a0}', '\u{3000}', '\u{180e}', '\u{0}', '\u{7f}', '\u{b}',
+    '\u{c}', '\u{1b}', '\u{8}', '\u{fffe}', '\u{e0001}',
+];
+
 #[derive(Clone, Debug)]
 pub struct Delivered {
     pub text: String,
@@ -253,6 +265,26 @@ pub fn apply_tok_fault(d: &mut Delivered, f: &TokFault) -> bool {
                             d.text = p.render();
                             changed = true;
                             break;
+                        }
+                    }
+                }
+            }
+        }
+        TokFault::SigAddValue { hex } => {
+            if let Some(mut p) = parts {
+                use num_bigint_dig::BigUint;
+                let add = hexd(hex);
+                let l = add.len();
+                if l >= 1 && p.payload.len() >= l && p.header.contains(".public.") {
+                    let at = p.payload.len() - l;
+                    let be = (BigUint::from_bytes_be(&p.payload[at..]) + BigUint::from_bytes_be(&add)).to_bytes_be();
+                    if be.len() <= l {
+                        let mut padded = vec![0u8; l - be.len()];
+                        padded.extend(be);
+                        if padded != p.payload[at..] {
+                            p.payload[at..].copy_from_slice(&padded);
+                            d.text = p.render();
+                            changed = true;
                         }
                     }
                 }
@@ -655,6 +687,7 @@ impl TokFault {
             TokFault::TextTrailingBits { .. } => "text-trailing-bits",
             TokFault::TextInsert { .. } => "text-insert",
             TokFault::SigAddOrder { .. } => "sig-add-order",
+            TokFault::SigAddValue { .. } => "sig-add-modulus",
             TokFault::SwapPayloadRanges { .. } => "swap-payload-ranges",
             TokFault::TextReplace { .. } => "text-replace",
             TokFault::TextOverwriteBytes { .. } => "text-overwrite-bytes",
@@ -693,6 +726,8 @@ pub enum BlobFault {
     TextTrailingBits { bits: u8 },
     /// exchange the `n` bytes at `a` with the `n` bytes at `b` (non-overlapping)
     SwapRanges { a: usize, b: usize, n: usize },
+    /// one byte written with a given value (not applicable if it has that value already)
+    SetByte { at: usize, val: u8 },
 }
 
 impl BlobFault {
@@ -700,6 +735,7 @@ impl BlobFault {
         match self {
             BlobFault::Flip { .. } => "flip",
             BlobFault::SwapRanges { .. } => "swap-ranges",
+            BlobFault::SetByte { .. } => "set-byte",
             BlobFault::TruncBack { .. } => "trunc-back",
             BlobFault::TruncFront { .. } => "trunc-front",
             BlobFault::TruncMid { .. } => "trunc-mid",
@@ -724,6 +760,16 @@ pub fn apply_blob_fault(text: &mut String, f: &BlobFault) -> bool {
             if let Some((h, mut d)) = parts {
                 if *byte < d.len() {
                     d[*byte] ^= 1 << (bit & 7);
+                    *text = join_paserk(&h, &d);
+                    return true;
+                }
+            }
+            false
+        }
+        BlobFault::SetByte { at, val } => {
+            if let Some((h, mut d)) = parts {
+                if *at < d.len() && d[*at] != *val {
+                    d[*at] = *val;
                     *text = join_paserk(&h, &d);
                     return true;
                 }
